@@ -459,9 +459,53 @@ def _nested_funcs(fn: ast.AST) -> T.List[ast.FunctionDef]:
     return [n for n in ast.walk(fn) if isinstance(n, ast.FunctionDef) and n is not fn]
 
 
-def _is_raw_store(st: ast.AST) -> bool:
-    return isinstance(st, ast.Assign) and len(st.targets) == 1 and isinstance(st.targets[0], ast.Subscript) \
-        and isinstance(st.targets[0].slice, ast.Constant) and st.targets[0].slice.value == 'raw'
+class FieldNorm(ast.NodeTransformer):
+    """Record field access in one spelling: `x['name']` (dict record) becomes `x.name` (dataclass / NamedTuple record)."""
+
+    def visit_Subscript(self, n: ast.Subscript) -> ast.AST:
+        self.generic_visit(n)
+        if isinstance(n.slice, ast.Constant) and isinstance(n.slice.value, str) and n.slice.value.isidentifier():
+            return ast.copy_location(ast.Attribute(value=n.value, attr=n.slice.value, ctx=n.ctx), n)
+        return n
+
+
+def field_normal_form(fn: ast.FunctionDef) -> ast.FunctionDef:
+    out = FieldNorm().visit(copy.deepcopy(fn))
+    ast.fix_missing_locations(out)
+    return T.cast(ast.FunctionDef, out)
+
+
+def record_fields(mod: Module, e: ast.AST) -> T.Optional[T.Dict[str, ast.AST]]:
+    """field -> value of a record construction: a dict display with constant keys, dict(k=v), or a call of a dataclass / NamedTuple
+    of the module (arguments bound to the fields in declaration order or by keyword)."""
+    if isinstance(e, ast.Dict) and e.keys and all(isinstance(k, ast.Constant) and isinstance(k.value, str) for k in e.keys):
+        return {k.value: v for k, v in zip(e.keys, e.values)}  # type: ignore[union-attr]
+    if isinstance(e, ast.Call) and norm(e.func) == 'dict' and not e.args and all(k.arg for k in e.keywords):
+        return {T.cast(str, k.arg): k.value for k in e.keywords}
+    if isinstance(e, ast.Call):
+        cn = (attr_chain(e.func) or '').split('.')[-1]
+        if mod.has_cls(cn):
+            c = mod.cls(cn)
+            fields = [st.target.id for st in c.body if isinstance(st, ast.AnnAssign) and isinstance(st.target, ast.Name)]
+            if fields and not any(isinstance(st, ast.FunctionDef) and st.name == '__init__' for st in c.body):
+                out = {fields[i]: a for i, a in enumerate(e.args) if i < len(fields)}
+                out.update({k.arg: k.value for k in e.keywords if k.arg})
+                return out
+    return None
+
+
+def _is_text_store(st: ast.AST, field: T.Optional[str] = None) -> bool:
+    """`<record>.<field> = ...` in the field normal form (the field that holds the text of the file)."""
+    return isinstance(st, ast.Assign) and len(st.targets) == 1 and isinstance(st.targets[0], ast.Attribute) \
+        and (field is None or st.targets[0].attr == field)
+
+
+def _splice_field(f: ast.AST) -> T.Optional[str]:
+    """The record field that some statement of f replaces by <text>[:a] + ... + <text>[b:]."""
+    for s_ in ast.walk(f):
+        if _is_text_store(s_) and sum(1 for x in template_parts(s_.value) if isinstance(x, ast.Subscript) and isinstance(x.slice, ast.Slice)) >= 2:  # type: ignore[attr-defined]
+            return T.cast(str, s_.targets[0].attr)  # type: ignore[attr-defined]
+    return None
 
 
 def _split_kind(src: ast.AST, rname: str, qn: str) -> T.Tuple[T.Set[str], T.Optional[int]]:
@@ -612,22 +656,26 @@ def _line_table(ctx: RuleCtx, mod: Module, scope: ast.AST, tname: str, rname: st
 
 def r3(ctx: RuleCtx) -> None:
     mod = ctx.repo.module(REWRITER)
-    fn = inline_trivial_helpers(mod, T.cast(ast.FunctionDef, mod.func('Rewriter.apply_changes')), 'Rewriter')    # normal form: one-expression helpers inlined
+    # normal form: one-expression helpers inlined, record fields in one spelling (x['f'] == x.f)
+    fn = field_normal_form(inline_trivial_helpers(mod, T.cast(ast.FunctionDef, mod.func('Rewriter.apply_changes')), 'Rewriter'))
     cfg = CFG(fn)
 
-    # ---- the splicing function: the one that stores <...>['raw'] = <slice> + new + <slice>
+    # ---- the splicing function: the one that stores <record>.<text> = <slice> + new + <slice>
     # (found by role: nested in apply_changes, or a method / module function that apply_changes calls)
     def splices(f: ast.AST) -> bool:
-        return any(_is_raw_store(s_) and any(isinstance(x, ast.Slice) for x in ast.walk(s_.value)) for s_ in ast.walk(f))  # type: ignore[attr-defined]
+        return _splice_field(f) is not None
     called = {(attr_chain(c.func) or '').split('.')[-1] for c in ast.walk(fn) if isinstance(c, ast.Call)}
     cands: T.List[T.Tuple[str, ast.FunctionDef, bool]] = [(f'Rewriter.apply_changes.{f.name}', f, False) for f in _nested_funcs(fn) if splices(f)]
     if not cands:
         for q, f in mod.funcs().items():
-            if f is not fn and q.split('.')[-1] in called and q.count('.') <= 1 and splices(f) and isinstance(f, ast.FunctionDef):
-                cands.append((q, f, '.' in q))
+            if q.split('.')[-1] in called and q.count('.') <= 1 and q != 'Rewriter.apply_changes' and isinstance(f, ast.FunctionDef):
+                f2 = field_normal_form(f)
+                if splices(f2):
+                    cands.append((q, f2, '.' in q))
     if len(cands) != 1:
         raise Undecided(f'apply_changes: {len(cands)} splicing helpers found')
     sp_q, sp, sp_is_method = cands[0]
+    F_text = T.cast(str, _splice_field(sp))
 
     # ---- (a) order: one descending sort on (lineno, colno) feeds the splice loop
     sorts: T.List[T.Tuple[ast.stmt, ast.Call, str]] = []
@@ -643,6 +691,13 @@ def r3(ctx: RuleCtx) -> None:
     sort_st, sort_call, work = sorts[0]
     key = kwarg(sort_call, 'key')
     rev = kwarg(sort_call, 'reverse')
+    if isinstance(key, ast.Name):
+        # a named key function (nested def or module function) with a single return is the same as the lambda
+        kf = [f for f in ast.walk(fn) if isinstance(f, ast.FunctionDef) and f.name == key.id and f is not fn] or \
+             ([mod.func(key.id)] if mod.has_func(key.id) else [])
+        body_ = [st_ for st_ in kf[0].body if not (isinstance(st_, ast.Expr) and isinstance(st_.value, ast.Constant))] if len(kf) == 1 else []
+        if len(body_) == 1 and isinstance(body_[0], ast.Return) and body_[0].value is not None:
+            key = ast.Lambda(args=kf[0].args, body=FieldNorm().visit(copy.deepcopy(body_[0].value)))
     if not isinstance(key, ast.Lambda):
         raise Undecided('apply_changes: sort key is not a lambda')
     kb = _strip_cast(key.body)
@@ -750,7 +805,7 @@ def r3(ctx: RuleCtx) -> None:
     for e in evid:
         ctx.note('lexer: ' + e)
     param = next(iter(item_params))
-    paths = [p for p in enumerate_paths(sp.body) if any(_is_raw_store(s) for s in p.stmts())]
+    paths = [p for p in enumerate_paths(sp.body) if any(_is_text_store(s, F_text) for s in p.stmts())]
     chosen: T.List[Path] = []
     for p in paths:
         isin = [(k, v) for k, v in p.conds() if k.startswith('isinstance(')]
@@ -759,7 +814,7 @@ def r3(ctx: RuleCtx) -> None:
     if len(chosen) != 1:
         raise Undecided(f'{sp_q}: {len(chosen)} paths for Array/Function nodes')
     p = chosen[0]
-    store = [s for s in p.stmts() if _is_raw_store(s)][0]
+    store = [s for s in p.stmts() if _is_text_store(s, F_text)][0]
     env = sym_exec(p, stop=store)
     rhs = _strip_cast(_Subst(env).visit(copy.deepcopy(store.value)))  # type: ignore[attr-defined]
     parts = _flatten_add(rhs)
@@ -771,11 +826,21 @@ def r3(ctx: RuleCtx) -> None:
     hs, ts = T.cast(ast.Slice, head.slice), T.cast(ast.Slice, tail.slice)
     if not (hs.lower is None and hs.upper is not None and hs.step is None and ts.upper is None and ts.lower is not None and ts.step is None):
         raise Undecided(f'{sp_q}: slices are not [:start] and [end:]')
-    same_text = norm(head.value) == norm(tail.value) == f"{target_base}['raw']"
-    ctx.require(same_text and norm(mid) == f"{param}['str']", f'{sp_q}: text becomes raw[:start] + new + raw[end:] of the same buffer', mod, sp_q, store,
-                f'the splice is {short(rhs, 160)}: head/tail are not slices of the buffer that is stored back, or the middle is not the re-printed text', store)
-    node_e = f"{param}['node']"
-    table_e = f"{target_base}['offsets']"
+    same_text = norm(head.value) == norm(tail.value) == f"{target_base}.{F_text}"
+    # by role: the node is what the start position reads .lineno of, the line table what it indexes; both hang off the work item / the file record
+    c0, _ = linear(hs.upper)
+    tabs = [ast.parse(k, mode='eval').body for k in c0 if k.endswith(']')]
+    tabs = [t for t in tabs if isinstance(t, ast.Subscript) and isinstance(t.value, ast.Attribute) and norm(t.value.value) == target_base]
+    if len(tabs) != 1:
+        raise Undecided(f'{sp_q}: start = {short(hs.upper)} does not index a field of the file record {target_base}')
+    table_e = norm(tabs[0].value)
+    nodes_ = {k.rsplit('.', 1)[0] for k in linear(tabs[0].slice)[0] if k.endswith('.lineno')}
+    if len(nodes_) != 1 or not nodes_.copy().pop().startswith(param + '.'):
+        raise Undecided(f'{sp_q}: the line index {short(tabs[0].slice)} does not read .lineno of a field of the work item `{param}`')
+    node_e = nodes_.pop()
+    mid_ok = isinstance(mid, ast.Attribute) and norm(mid.value) == param and norm(mid) != node_e
+    ctx.require(same_text and mid_ok, f'{sp_q}: text becomes text[:start] + new + text[end:] of the same buffer', mod, sp_q, store,
+                f'the splice is {short(rhs, 160)}: head/tail are not slices of the buffer that is stored back, or the middle is not the re-printed text of the work item', store)
 
     def position(e: ast.AST, what: str, line_attr: str, col_attr: str) -> None:
         coef, const = linear(e)
@@ -797,13 +862,14 @@ def r3(ctx: RuleCtx) -> None:
     position(ts.lower, 'end', 'end_lineno', 'end_colno')
 
     # ---- (c) the line table
-    lit = [d for d in ast.walk(fn) if isinstance(d, ast.Dict) and any(isinstance(k, ast.Constant) and k.value == 'offsets' for k in d.keys)]
-    if len(lit) != 1:
-        raise Undecided('apply_changes: the per-file record with the key "offsets" was not found')
-    rec = {k.value: v for k, v in zip(lit[0].keys, lit[0].values) if isinstance(k, ast.Constant)}
-    if not (isinstance(rec.get('offsets'), ast.Name) and isinstance(rec.get('raw'), ast.Name)):
-        raise Undecided('apply_changes: "offsets"/"raw" are not plain locals')
-    tname, rname = rec['offsets'].id, rec['raw'].id
+    F_tab = table_e.rsplit('.', 1)[1]
+    recs = [r_ for r_ in (record_fields(mod, d) for d in ast.walk(fn) if isinstance(d, (ast.Dict, ast.Call))) if r_ is not None and F_tab in r_ and F_text in r_]
+    if len(recs) != 1:
+        raise Undecided(f'apply_changes: {len(recs)} constructions of the per-file record with the fields {F_text!r} and {F_tab!r}')
+    rec = recs[0]
+    if not (isinstance(rec[F_tab], ast.Name) and isinstance(rec[F_text], ast.Name)):
+        raise Undecided(f'apply_changes: the fields {F_tab!r}/{F_text!r} of the file record are not plain locals')
+    tname, rname = rec[F_tab].id, rec[F_text].id  # type: ignore[attr-defined]
     tdefs = [n.value for n in ast.walk(fn) if isinstance(n, ast.Assign) and len(n.targets) == 1 and norm(n.targets[0]) == tname]
     helper = None
     if len(tdefs) == 1 and isinstance(tdefs[0], ast.Call) and len(tdefs[0].args) == 1 and not tdefs[0].keywords and norm(tdefs[0].args[0]) == rname:
@@ -1617,6 +1683,33 @@ def r6(ctx: RuleCtx) -> None:
                         meths.add(c.func.attr)
                     break
                 cur = par
+    if not meths:
+        # table dispatch: `name = TABLE[cmd['operation']]` (possibly a row unpacked into several names) ... `getattr(modifier, name)(val)`
+        for c in ast.walk(pk):
+            if not (isinstance(c, ast.Call) and isinstance(c.func, ast.Call) and norm(c.func.func) == 'getattr' and len(c.func.args) == 2
+                    and is_modifier(c.func.args[0]) and isinstance(c.func.args[1], ast.Name)):
+                continue
+            mname_var = c.func.args[1].id
+            for n in ast.walk(pk):
+                if not (isinstance(n, ast.Assign) and len(n.targets) == 1):
+                    continue
+                tg = n.targets[0]
+                names_ = [norm(e_) for e_ in tg.elts] if isinstance(tg, (ast.Tuple, ast.List)) else [norm(tg)]
+                if mname_var not in names_:
+                    continue
+                v = _Subst(renames).visit(copy.deepcopy(n.value))
+                key_ok = isinstance(v, ast.Subscript) and isinstance(v.value, ast.Name) and norm(v.slice) == f"{cparam}['operation']"
+                if isinstance(v, ast.Call) and isinstance(v.func, ast.Attribute) and v.func.attr == 'get' and isinstance(v.func.value, ast.Name) \
+                        and v.args and norm(v.args[0]) == f"{cparam}['operation']":
+                    key_ok, v = True, ast.Subscript(value=v.func.value, slice=v.args[0], ctx=ast.Load())
+                if not key_ok or not mod.has_assign(v.value.id):  # type: ignore[attr-defined]
+                    continue
+                tabv = fold_expr(ctx.repo, mod, mod.assign_value(v.value.id))  # type: ignore[attr-defined]
+                if isinstance(tabv, dict) and op_c in tabv:
+                    row = tabv[op_c]
+                    val_ = row[names_.index(mname_var)] if isinstance(tg, (ast.Tuple, ast.List)) else row
+                    if isinstance(val_, str):
+                        meths.add(val_)
     if len(meths) != 1:
         raise Undecided(f'process_kwargs: operation {op_c!r} dispatches to {sorted(meths)}')
     entry = next(iter(meths))
@@ -1641,7 +1734,7 @@ def r6(ctx: RuleCtx) -> None:
             raise Undecided(f'{q}: pattern parameter not found')
         pp = params[pparam_idx]
         fl = Flow(f)
-        if any(isinstance(c, ast.Call) and (attr_chain(c.func) or '').startswith('re.') and c.args and f'param:{pp}' in fl.origins(c.args[0]) for c in ast.walk(f)):
+        if any(isinstance(c, ast.Call) and _re_callee(m2, c).startswith('re.') and c.args and f'param:{pp}' in fl.origins(c.args[0]) for c in ast.walk(f)):
             appliers.append((m2, q, f, pp))
         # callables handed on / called with the pattern
         fparams: T.Dict[str, str] = {}
@@ -1673,9 +1766,9 @@ def r6(ctx: RuleCtx) -> None:
     for m2, q, f, pp in appliers:
         fl = Flow(f)
         for c in ast.walk(f):
-            if not (isinstance(c, ast.Call) and (attr_chain(c.func) or '').startswith('re.') and c.args and f'param:{pp}' in fl.origins(c.args[0])):
+            if not (isinstance(c, ast.Call) and _re_callee(m2, c).startswith('re.') and c.args and f'param:{pp}' in fl.origins(c.args[0])):
                 continue
-            how = (attr_chain(c.func) or '').split('.', 1)[1]
+            how = _re_callee(m2, c).split('.', 1)[1]
             if how in ('match', 'fullmatch'):
                 ok = True
             elif how == 'search':
@@ -1685,6 +1778,18 @@ def r6(ctx: RuleCtx) -> None:
             ctx.require(ok, f'{q}: `{short(c)}` anchors the pattern {lead!r}+key+{trail!r} at the start of the entry', m2, q, c,
                         f'`{short(c)}` applies the pattern {lead!r} + key + {trail!r} of process_default_options unanchored: `default-options set debug ...` / `delete c_std` '
                         'also removes entries that merely contain `<key>=` (b_ndebug=..., objc_std=...)', c)
+
+
+def _re_callee(m: Module, c: ast.Call) -> str:
+    """Dotted name of the function a call applies; a module-level `N = functools.partial(f)` / `N = f` alias is read through."""
+    cn = attr_chain(c.func) or ''
+    if isinstance(c.func, ast.Name) and m.has_assign(c.func.id):
+        d = m.assign_value(c.func.id)
+        if isinstance(d, ast.Call) and (attr_chain(d.func) or '').split('.')[-1] == 'partial' and len(d.args) == 1 and not d.keywords:
+            return attr_chain(d.args[0]) or ''
+        if isinstance(d, ast.Attribute):
+            return attr_chain(d) or ''
+    return cn
 
 
 def _self_meth(e: ast.AST) -> T.Optional[str]:
@@ -1699,12 +1804,14 @@ def _work_lists(mod: Module) -> T.List[str]:
     """Attributes of Rewriter that __init__ creates as empty lists and apply_changes reads."""
     init = mod.func('Rewriter.__init__')
     ac = mod.func('Rewriter.apply_changes')
+    def empty_list(v: T.Optional[ast.AST]) -> bool:
+        return (isinstance(v, ast.List) and not v.elts) or (isinstance(v, ast.Call) and norm(v.func) == 'list' and not v.args and not v.keywords)
     created = {attr_chain(n.targets[0]).split('.', 1)[1] for n in walk_no_nested(init)  # type: ignore[union-attr]
                if isinstance(n, ast.Assign) and len(n.targets) == 1 and (attr_chain(n.targets[0]) or '').startswith('self.')
-               and (attr_chain(n.targets[0]) or '').count('.') == 1 and isinstance(n.value, ast.List) and not n.value.elts}
+               and (attr_chain(n.targets[0]) or '').count('.') == 1 and empty_list(n.value)}
     created |= {attr_chain(n.target).split('.', 1)[1] for n in walk_no_nested(init)  # type: ignore[union-attr]
                 if isinstance(n, ast.AnnAssign) and (attr_chain(n.target) or '').startswith('self.') and (attr_chain(n.target) or '').count('.') == 1
-                and isinstance(n.value, ast.List) and not n.value.elts}
+                and empty_list(n.value)}
     read = {n.attr for n in ast.walk(ac) if isinstance(n, ast.Attribute) and isinstance(n.value, ast.Name) and n.value.id == 'self' and isinstance(n.ctx, ast.Load)}
     return sorted(created & read)
 
@@ -1814,9 +1921,9 @@ def r7(ctx: RuleCtx) -> None:
 def r3_append_and_scan(ctx: RuleCtx, mod: Module, fn: ast.FunctionDef, loop: ast.For, sp: ast.FunctionDef, sp_q: str, term: T.Set[str],
                        calls_splicer: T.Callable[[ast.AST], bool]) -> None:
     # (e) entries that are not spliced by position are appended to the buffer: the buffer must be known to end with a line terminator first
-    appends = [st for st in ast.walk(loop) if (isinstance(st, ast.AugAssign) and isinstance(st.op, ast.Add) and isinstance(st.target, ast.Subscript)
-                                                 and isinstance(st.target.slice, ast.Constant) and st.target.slice.value == 'raw')
-               or (_is_raw_store(st) and not any(isinstance(x, ast.Slice) for x in ast.walk(st.value)))]  # type: ignore[attr-defined]
+    F_text = _splice_field(sp)
+    appends = [st for st in ast.walk(loop) if (isinstance(st, ast.AugAssign) and isinstance(st.op, ast.Add) and isinstance(st.target, ast.Attribute) and st.target.attr == F_text)
+               or (_is_text_store(st, F_text) and not any(isinstance(x, ast.Slice) for x in ast.walk(st.value)))]  # type: ignore[attr-defined]
     for st in appends:
         arm = next((n for n in ast.walk(loop) if isinstance(n, ast.If) and (st in n.body or st in n.orelse)), None)
         region: T.List[ast.stmt] = list(arm.body if arm is not None and st in arm.body else (arm.orelse if arm is not None else loop.body))
@@ -1965,3 +2072,98 @@ def _truthiness_of_text(fn: ast.FunctionDef) -> T.List[ast.Call]:
                             (isinstance(t, ast.Name) and isinstance(ev.node.value, ast.Constant) and isinstance(ev.node.value.value, bool)):
                         rebound.add(t.id)   # now a real boolean
     return out
+
+
+# ---------------------------------------------------------------------------
+# R10: a list is not changed while a loop walks over it
+MUTATING = {'remove', 'pop', 'insert', 'append', 'extend', 'clear', 'sort', 'reverse'}
+
+
+def _mutated_while_iterated(fn: ast.AST) -> T.List[T.Tuple[ast.For, ast.AST]]:
+    out: T.List[T.Tuple[ast.For, ast.AST]] = []
+    for loop in ast.walk(fn):
+        if not isinstance(loop, ast.For):
+            continue
+        it = loop.iter
+        chain = attr_chain(it)
+        if chain is None:
+            continue          # a copy (list(x), x[:], sorted(x)), a call or a display is safe to walk
+        aliases = {chain}
+        for st in loop.body:
+            for n in ast.walk(st):
+                if isinstance(n, ast.Call) and isinstance(n.func, ast.Attribute) and n.func.attr in MUTATING and attr_chain(n.func.value) in aliases:
+                    # `x.remove(i)` followed by break/return in the same block is the search-and-remove idiom: the walk ends there
+                    ends = False
+                    for par_ in ast.walk(loop):
+                        for f_ in ('body', 'orelse'):
+                            blk = getattr(par_, f_, None)
+                            if isinstance(blk, list):
+                                pos = [i for i, s_ in enumerate(blk) if isinstance(s_, ast.stmt) and any(x is n for x in ast.walk(s_))
+                                       and not isinstance(s_, (ast.If, ast.For, ast.While, ast.With, ast.Try))]
+                                if pos and any(isinstance(s_, (ast.Break, ast.Return, ast.Raise)) for s_ in blk[pos[0]:pos[0] + 3]):
+                                    ends = True
+                    if not ends:
+                        out.append((loop, n))
+                elif isinstance(n, ast.Delete) and any(isinstance(t, ast.Subscript) and attr_chain(t.value) in aliases for t in n.targets):
+                    out.append((loop, n))
+    return out
+
+
+def r10(ctx: RuleCtx) -> None:
+    demo = ast.parse("def f(self, xs):\n    for i in self.node.args.arguments:\n        if bad(i):\n            self.node.args.arguments.remove(i)\n").body[0]
+    if len(_mutated_while_iterated(demo)) != 1:
+        raise Undecided('self-check of the mutate-while-iterating detector failed')
+    n = 0
+    for rel in (REWRITER, 'mesonbuild/ast/interpreter.py', 'mesonbuild/ast/introspection.py'):
+        mod = ctx.repo.module(rel)
+        for qn, fn in mod.funcs().items():
+            if not isinstance(fn, ast.FunctionDef):
+                continue
+            loops = [l for l in walk_no_nested(fn) if isinstance(l, ast.For) and attr_chain(l.iter) is not None]
+            if not loops:
+                continue
+            n += len(loops)
+            inner = ast.Module(body=[s_ for s_ in fn.body], type_ignores=[])
+            bad = [(l, c) for l, c in _mutated_while_iterated(inner) if l in loops]
+            for l, c in bad:
+                ctx.violation(mod, qn, c, f'`{short(c)}` changes `{norm(l.iter)}` inside `for {norm(l.target)} in {norm(l.iter)}`: after a removal the walk skips the next element '
+                              '(two adjacent matches: only the first is handled), after an insertion it sees elements twice', c)
+            if not bad:
+                ctx.ok(f'{qn}: {len(loops)} loop(s) over a named list, none changes the list it walks', nontrivial=False)
+    ctx.floor('loops over named lists in the rewriter and the AST interpreter', n, 10)
+
+
+# ---------------------------------------------------------------------------
+# R11: keyword type table of the rewriter vs the keyword declarations of the interpreter (list-ness)
+def r11(ctx: RuleCtx) -> None:
+    from ..consteval import Opaque
+    mod = ctx.repo.module(REWRITER)
+    imod = ctx.repo.module('mesonbuild/interpreter/interpreter.py')
+    tab = fold_expr(ctx.repo, mod, mod.assign_value('rewriter_func_kwargs'))
+    if not isinstance(tab, dict):
+        raise Undecided('rewriter_func_kwargs does not fold to a dict')
+    n = 0
+    for fname, kws in sorted(tab.items()):
+        decl: T.Dict[str, ast.Call] = {}
+        for q, f in imod.funcs().items():
+            for d in getattr(f, 'decorator_list', []):
+                if isinstance(d, ast.Call) and (attr_chain(d.func) or '').split('.')[-1] == 'typed_kwargs' and d.args \
+                        and isinstance(d.args[0], ast.Constant) and d.args[0].value == fname:
+                    for a in d.args[1:]:
+                        if isinstance(a, ast.Call) and (attr_chain(a.func) or '').split('.')[-1] == 'KwargInfo' and len(a.args) >= 2 and isinstance(a.args[0], ast.Constant):
+                            decl[a.args[0].value] = a
+        for key, cls_o in sorted(kws.items()):
+            if key not in decl or not (isinstance(cls_o, Opaque) and cls_o.kind == 'class'):
+                continue         # declared through a shared constant or elsewhere: not compared
+            cmod, cdef = cls_o.node
+            is_list_mod = any(c.name == 'MTypeList' for _, c in ctx.repo.mro(cmod, cdef))
+            types = decl[key].args[1]
+            declared_list = any(isinstance(x, ast.Call) and (attr_chain(x.func) or '').split('.')[-1] == 'ContainerTypeInfo' and x.args and norm(x.args[0]) == 'list'
+                                for x in ast.walk(types))
+            n += 1
+            ctx.require(is_list_mod == declared_list, f'{fname}({key}): modifier {cdef.name} and declared type {short(types, 50)} agree on being a list', mod, '<module>',
+                        f"rewriter_func_kwargs[{fname!r}][{key!r}] = {cdef.name}",
+                        f'{fname}() declares `{key}` as {short(types, 60)} but the rewriter edits it with {cdef.name}: '
+                        + ('an existing list value is "too complex to modify" and a list given to `set` is written as one string' if declared_list
+                           else 'a single value is wrapped into / edited as a list'), decl[key])
+    ctx.floor('keyword types compared with the interpreter declarations', n, 3)
